@@ -97,6 +97,11 @@ func (E *Engine) genSpanOf() string {
 	for _, si := range U.nodeTys {
 		fmt.Fprintf(&b, "(define-fun tag.%s () Int %d)\n", si.Name, si.Tag)
 	}
+	// tagOf: the dynamic type of a non-nil node
+	b.WriteString("(declare-fun tagOf (Node) Int)\n(assert (= (tagOf nilN) 0))\n(assert (forall ((t Int)) (! (= (tagOf (nilp t)) 0) :pattern ((tagOf (nilp t))))))\n")
+	for _, si := range U.nodeTys {
+		fmt.Fprintf(&b, "(assert (forall ((n Node)) (! (= ((_ is mk_%s) n) (= (tagOf n) %d)) :pattern ((tagOf n)))))\n", si.Name, si.Tag)
+	}
 	// Local safety conditions, read off the code and *checked* by the safety
 	// obligations of the Span methods (which assume only spanSafe(self)):
 	// JoinOperator.Span and AsOperator.Span dereference their receiver, and
@@ -144,6 +149,16 @@ func (E *Engine) genHeight() string {
 		}
 		if len(cs) > 0 {
 			fmt.Fprintf(&b, "(assert (forall (%s) (! (and %s) :pattern ((height %s)))))\n", strings.Join(binders, " "), strings.Join(cs, " "), ctor)
+		}
+		// the same facts in selector form, triggered by the height of a selected child
+		for _, f := range si.Fields {
+			sel := fmt.Sprintf("(%s.%s n)", si.Name, f.Name)
+			switch f.Sort {
+			case "Node":
+				fmt.Fprintf(&b, "(assert (forall ((n Node)) (! (=> ((_ is mk_%s) n) (< (height %s) (height n))) :pattern ((height %s)))))\n", si.Name, sel, sel)
+			case "Seq_Node":
+				fmt.Fprintf(&b, "(assert (forall ((n Node)) (! (=> ((_ is mk_%s) n) (< (lheight %s) (height n))) :pattern ((lheight %s)))))\n", si.Name, sel, sel)
+			}
 		}
 	}
 	return b.String()
